@@ -33,6 +33,7 @@ pub fn run(id: &str) -> Result<String, String> {
         "F75" => f75(),
         "F77" => f77(),
         "F78" => f78(),
+        "F80" => f80(),
         _ => Err(format!("unknown witness {id}")),
     }
 }
@@ -892,4 +893,19 @@ fn f78() -> Result<String, String> {
     }
     let _ = std::panic::take_hook();
     if bad.is_empty() { Ok(format!("\"cases\":{cases}")) } else { Err(format!("the BCF writer PANICS on an INFO float array holding a reserved NaN bit pattern: {}", bad.join(", "))) }
+}
+
+/// F80 (known): a FASTA whose sequence line holds a '>' gives results that depend on how the source is chunked: the sequence reader and the
+/// indexer test the FIRST byte of every buffer fill against '>' (the start of the next definition), not only the first byte of a line.
+fn f80() -> Result<String, String> {
+    use std::io::BufReader;
+    let data: &[u8] = b">sq0\nAC>GT\n>sq1\nTT\n";
+    let read = |cap: Option<usize>| -> Vec<String> { let collect = |it: &mut dyn Iterator<Item = std::io::Result<noodles_fasta::Record>>| -> Vec<String> { it.take(10).map(|r| match r { Ok(r) => format!("{}:{}", String::from_utf8_lossy(r.name()), String::from_utf8_lossy(r.sequence().as_ref())), Err(e) => format!("ERROR {e}") }).collect() };
+        match cap { None => collect(&mut noodles_fasta::io::Reader::new(data).records()), Some(c) => collect(&mut noodles_fasta::io::Reader::new(BufReader::with_capacity(c, data)).records()) } };
+    let index = |cap: Option<usize>| -> String { let run = |ix: &mut dyn FnMut() -> std::io::Result<Option<noodles_fasta::fai::Record>>| -> String { let mut v = Vec::new(); for _ in 0..10 { match ix() { Ok(Some(r)) => v.push(format!("{}:{}", String::from_utf8_lossy(r.name()), r.length())), Ok(None) => break, Err(e) => { v.push(format!("ERROR {e}")); break; } } } v.join(",") };
+        match cap { None => { let mut i = noodles_fasta::io::Indexer::new(data); run(&mut || i.index_record().map_err(|e| std::io::Error::other(e.to_string()))) }, Some(c) => { let mut i = noodles_fasta::io::Indexer::new(BufReader::with_capacity(c, data)); run(&mut || i.index_record().map_err(|e| std::io::Error::other(e.to_string()))) } } };
+    let (want_r, want_i) = (read(None), index(None));
+    let mut bad = Vec::new();
+    for cap in [1usize, 2, 3, 7, 8] { let (r, i) = (read(Some(cap)), index(Some(cap))); if r != want_r { bad.push(format!("records() through a BufReader of capacity {cap}: {r:?} instead of {want_r:?}")); } if i != want_i { bad.push(format!("the indexer through a BufReader of capacity {cap}: {i} instead of {want_i}")); } }
+    if bad.is_empty() { Ok("\"cases\":10".into()) } else { Err(format!("a FASTA with '>' inside a sequence line (>sq0 / AC>GT) reads differently depending on the window size of the source: {}", bad[..bad.len().min(3)].join("; "))) }
 }
